@@ -194,6 +194,7 @@ class WalkRun:
                 pre_order = None
                 if cfg['order_mode'] and entering and cfg['kind'] == 'walk':
                     pre_order = self.quiescent()
+                link = (g.parent, g.pfield)
                 outcome = self.perform(act, g, gen, leaving, entering)
                 if outcome == 'ok' and act['a'] not in ('send_false', 'send_true') and cfg.get('check_each', True):
                     if check_consistent(root) is not None:
@@ -214,7 +215,7 @@ class WalkRun:
                     skip_roots = [(sf, sa) for sf, sa in skip_roots if sf.a is sa]
                 # ---- order oracle (order mode only: actions restricted to current node / send(False))
                 if pre_order is not None and outcome in ('ok', 'none', 'refused'):
-                    expect_next = self.expected_next(pre_order, a, g, act['a'] if outcome == 'ok' else 'none')
+                    expect_next = self.expected_next(pre_order, a, g, act['a'] if outcome == 'ok' else 'none', link)
             # end of iteration
             if self.viol is None and not getattr(self, 'collateral', False):
                 bad = check_consistent(root)
@@ -284,7 +285,7 @@ class WalkRun:
         cfg = self.cfg
         return [n.a for n in self.start.walk(self.all_arg, 'enter', **self.kw)] if self.start.a is not None else []
 
-    def expected_next(self, pre, a, g, action):
+    def expected_next(self, pre, a, g, action, link=None):
         """AST node that must be yielded next, or None if nothing can be said."""
         try:
             i = next(k for k, x in enumerate(pre) if x is a)
@@ -305,8 +306,16 @@ class WalkRun:
             return None
         if action == 'replace':
             post = self.quiescent()
+            # the node now at the replaced position, found through the parent link recorded BEFORE the action (not
+            # through the yielded wrapper: a library that drops the wrapper's node must not switch the oracle off)
+            new_a = g.a
+            if link is not None and link[0] is not None and link[0].a is not None:
+                try:
+                    new_a = link[1].get(link[0].a)
+                except Exception:
+                    new_a = g.a
             try:
-                j = next(k for k, x in enumerate(post) if x is g.a)
+                j = next(k for k, x in enumerate(post) if x is new_a)
             except StopIteration:
                 return None
             return post[j + 1] if j + 1 < len(post) else None
